@@ -33,6 +33,8 @@ type c04Step struct {
 	Max     uint64   `json:"max"`
 	Rows    []c04Row `json:"rows"`
 	BlobLen int      `json:"blob_len,omitempty"` // cli: size of the blob `desync make` indexes
+	CLIParams string `json:"cli_chunk_sizes,omitempty"` // cli: -m min:avg:max (default 64:256:1024)
+	SameBlob  bool   `json:"same_blob,omitempty"`       // cli: index the blob of the previous step again
 }
 
 type c04History struct {
@@ -149,6 +151,7 @@ func c04RunHistory(a vh.Args, o *vh.Oracle, r *vh.Result, h *c04History, n int) 
 		return err
 	}
 	defer be.close()
+	var prev []byte
 	for k, s := range h.Steps {
 		idx := c04BuildIndex(s.asCase(h.Digest))
 		var want bytes.Buffer
@@ -163,9 +166,12 @@ func c04RunHistory(a vh.Args, o *vh.Oracle, r *vh.Result, h *c04History, n int) 
 			fail("store/"+h.Backend+"-object-missing", fmt.Sprintf("step %d: stored object cannot be read: %v", k, err))
 		case len(got) > want.Len() && bytes.Equal(got[:want.Len()], want.Bytes()):
 			fail("store/stale-trailing-bytes", fmt.Sprintf("step %d: the stored object has %d bytes, Index.WriteTo produces %d: %d bytes of an earlier object are left behind the new index", k, len(got), want.Len(), len(got)-want.Len()))
+		case !bytes.Equal(got, want.Bytes()) && prev != nil && bytes.Equal(got, prev):
+			fail("store/store-skipped", fmt.Sprintf("step %d: StoreIndex returned nil but the stored object still is the index of step %d, not Index.WriteTo of the index just stored (first difference at byte %d)", k, k-1, firstDiff(got, want.Bytes())))
 		case !bytes.Equal(got, want.Bytes()):
 			fail("store/stored-bytes-differ", fmt.Sprintf("step %d: the stored object (%d bytes) differs from Index.WriteTo (%d bytes) at byte %d", k, len(got), want.Len(), firstDiff(got, want.Bytes())))
 		}
+		prev = got
 		back, err := be.get()
 		if err != nil || c04IndexString(back) != c04IndexString(idx) {
 			fail("store/get-after-overwrite", fmt.Sprintf("step %d: GetIndex does not return the index just stored (err=%v)", k, err))
@@ -200,11 +206,18 @@ func c04RunCLIHistory(a vh.Args, r *vh.Result, h *c04History, n int, shape strin
 	}
 	idxFile := filepath.Join(dir, "hist.caibx")
 	rng := vh.NewRand(h.Seed)
+	var data []byte
 	for k, s := range h.Steps {
 		blob := filepath.Join(dir, fmt.Sprintf("blob%d", k))
-		data := rng.Bytes(s.BlobLen)
+		if !(s.SameBlob && k > 0) {
+			data = rng.Bytes(s.BlobLen)
+		}
 		os.WriteFile(blob, data, 0644)
-		out, err := exec.Command(bin, "make", "--digest", h.Digest, "-m", "64:256:1024", idxFile, blob).CombinedOutput()
+		params := s.CLIParams
+		if params == "" {
+			params = "64:256:1024"
+		}
+		out, err := exec.Command(bin, "make", "--digest", h.Digest, "-m", params, idxFile, blob).CombinedOutput()
 		if err != nil {
 			fail("store/cli-store-error", fmt.Sprintf("step %d: desync make: %v %s", k, err, tail(string(out), 200)))
 			return nil
@@ -222,7 +235,12 @@ func c04RunCLIHistory(a vh.Args, r *vh.Result, h *c04History, n int, shape strin
 		var want bytes.Buffer
 		idx.WriteTo(&want)
 		ref, complete := c04RefParse(got)
+		var pmin, pavg, pmax uint64
+		fmt.Sscanf(params, "%d:%d:%d", &pmin, &pavg, &pmax)
+		pmin, pavg, pmax = pmin<<10, pavg<<10, pmax<<10 // -m is given in KiB
 		switch {
+		case ref.Min != pmin || ref.Avg != pavg || ref.Max != pmax:
+			fail("store/stale-parameters", fmt.Sprintf("step %d: `desync make -m %s` exited 0 but the index file carries min:avg:max %d:%d:%d", k, params, ref.Min, ref.Avg, ref.Max))
 		case idx.Length() != int64(len(data)):
 			fail("store/get-after-overwrite", fmt.Sprintf("step %d: the index file describes %d bytes, the blob just indexed has %d", k, idx.Length(), len(data)))
 		case len(got) > want.Len() && bytes.Equal(got[:want.Len()], want.Bytes()):
@@ -269,6 +287,43 @@ func c04Histories(a vh.Args, o *vh.Oracle, r *vh.Result, rng *vh.Rand) error {
 			if err := c04RunHistory(a, o, r, h, n); err != nil {
 				return err
 			}
+		}
+	}
+	// consecutive indexes that differ ONLY in the header fields (same chunk table), or only in the table
+	for _, backend := range []string{"local", "http", "s3"} {
+		for _, nrows := range []int{0, 1, 5} {
+			if backend == "s3" && a.Tier != "thorough" && nrows == 1 {
+				continue
+			}
+			n++
+			digest := []string{"sha256", "sha512-256"}[n%2]
+			base := c04GenStep(rng, digest, nrows)
+			flagsOnly, sizesOnly, maxOnly, tableOnly := base, base, base, c04GenStep(rng, digest, nrows)
+			flagsOnly.Flags ^= 1 << uint(rng.Intn(60)) // not the digest bit (61)
+			sizesOnly.Flags = flagsOnly.Flags
+			sizesOnly.Min, sizesOnly.Avg = base.Min+1, base.Avg+7
+			maxOnly = sizesOnly
+			if maxOnly.Max < c04MaxUint64 {
+				maxOnly.Max++
+			} else {
+				maxOnly.Min += 3
+			}
+			tableOnly.Flags, tableOnly.Min, tableOnly.Avg, tableOnly.Max = maxOnly.Flags, maxOnly.Min, maxOnly.Avg, c04MaxUint64
+			last := maxOnly
+			last.Max = c04MaxUint64
+			h := &c04History{Kind: "history", Backend: backend, Digest: digest, Steps: []c04Step{base, flagsOnly, sizesOnly, maxOnly, last, tableOnly, base}}
+			if err := c04RunHistory(a, o, r, h, n); err != nil {
+				return err
+			}
+		}
+	}
+	// the CLI: the same small blob (one chunk: smaller than min) and the empty blob, indexed with other chunk sizes
+	for _, l := range []int{40, 0} {
+		n++
+		h := &c04History{Kind: "history", Backend: "cli", Digest: []string{"sha256", "sha512-256"}[n%2], Seed: rng.U64(),
+			Steps: []c04Step{{BlobLen: l, CLIParams: "64:256:1024"}, {BlobLen: l, CLIParams: "128:512:2048", SameBlob: true}, {BlobLen: l, CLIParams: "64:256:1024", SameBlob: true}}}
+		if err := c04RunHistory(a, o, r, h, n); err != nil {
+			return err
 		}
 	}
 	for _, lens := range [][]int{{60000, 3000}, {3000, 60000}, {20000, 0}} {
